@@ -1,0 +1,30 @@
+//go:build verif
+
+// Contracts for package avc, checked by /verif/govc (comment-only file, compiled only with -tags verif).
+package avc
+
+// Samples carry 4-byte NALU length fields; inputs of 4 GiB or more are outside the domain of these helpers.
+
+//@ func GetNalusFromSample
+//@   requires len(sample) < 1<<32
+
+//@ func FindNaluTypes
+//@   requires len(sample) < 1<<32
+
+//@ func FindNaluTypesUpToFirstVideoNALU
+//@   requires len(sample) < 1<<32
+
+//@ func ContainsNaluType
+//@   requires len(sample) < 1<<32
+
+//@ func IsIDRSample
+//@   requires len(sample) < 1<<32
+
+//@ func HasParameterSets
+//@   requires len(b) < 1<<32
+
+//@ func GetParameterSets
+//@   requires len(sample) < 1<<32
+
+//@ func ConvertSampleToByteStream
+//@   requires len(sample) < 1<<32
